@@ -258,6 +258,78 @@ def part_grammar(part, n):
     part.note("parsed_as_program", stats["ok"])
 
 
+SEED_CORPUS = [
+    "def f(x) x * 2; [f(1), f(2)]",
+    "def m = <<<'a' => 1, 'b' => 2>>>; [k for k in keys m]",
+    "if 1 < 2 <= 2 then 'y' elif TRUE then 0 else 'n'",
+    "do error 5 catch 5 'five' finally 0 end",
+    "def g(a, b = 2, r...) [a, b, r...]; g(1, 2, ...[4, 5])",
+    "for i in range(3) do if i == 1 then continue end; i",
+    "require Math import [abs as a]; a(-3) !> string()",
+    "def class P do def x = 1; def m(self) self->x end",
+    "<*a = 1, f(self) 2*>->f() + 0x1F + 0b11 + 1_000.5 + //a+// is pattern",
+    "x[1 to *] = [y for y in <<1, 2>> also for z in 'ab' if y is not zero]",
+]
+
+
+def part_atheris(part, runs, use_seed_corpus):
+    """Coverage-guided byte fuzzing of parse_script (libFuzzer via atheris)
+    with the same oracle inside the target."""
+    import re as _re
+    import shutil
+    try:
+        from vf import repo as _r
+        sys.path.append(_r.DEPS) if _r.DEPS not in sys.path else None
+        import atheris  # noqa
+    except Exception as e:
+        part.note("atheris", f"not available ({type(e).__name__}); part skipped")
+        part.cls("atheris:unavailable")
+        return
+    work = tempfile.mkdtemp(prefix="vf_c01_fuzz_")
+    corpus = os.path.join(work, "corpus")
+    arts = os.path.join(work, "artifacts")
+    os.makedirs(corpus)
+    os.makedirs(arts)
+    if use_seed_corpus:
+        for i, sn in enumerate(SEED_CORPUS):
+            with open(os.path.join(corpus, f"seed{i}"), "w") as f:
+                f.write(sn)
+    env = dict(os.environ)
+    env["PYTHONPATH"] = os.pathsep.join(
+        [VERIF_DIR, os.path.join(VERIF_DIR, ".deps")])
+    try:
+        r = subprocess.run(
+            [sys.executable, "-m", "vf.checks.c01_fuzz", corpus, arts,
+             f"-runs={runs}", f"-seed={part.seed % 2000000000 + 1}",
+             "-max_len=160", "-timeout=30", "-rss_limit_mb=4096",
+             "-print_final_stats=1"],
+            cwd=VERIF_DIR, env=env, capture_output=True, text=True,
+            timeout=7200)
+        log = r.stdout + r.stderr
+        m = _re.search(r"stat::number_of_executed_units:\s*(\d+)", log)
+        done = int(m.group(1)) if m else 0
+        part.count(done)
+        ncorp = len(os.listdir(corpus))
+        part.distinct(ncorp)
+        part.note("libfuzzer_executed_units", done)
+        part.note("libfuzzer_corpus_size", ncorp)
+        part.cls("atheris:" + ("seed-corpus" if use_seed_corpus
+                               else "empty-corpus"),
+                 sorted(os.listdir(corpus))[:1])
+        for fn in sorted(os.listdir(arts)):
+            with open(os.path.join(arts, fn), "rb") as f:
+                text = f.read().decode("utf-8", "replace")
+            case = {"kind": "parse", "source": "atheris", "text": text}
+            f2 = prop(case)
+            if f2 is not None:
+                part.collect(f2, case)
+        if r.returncode != 0 and not os.listdir(arts):
+            part.note("libfuzzer_exit", r.returncode)
+            part.note("libfuzzer_log_tail", log[-400:])
+    finally:
+        shutil.rmtree(work, ignore_errors=True)
+
+
 def parts(tier, seed):
     if tier == "quick":
         ps = [("soup-%d" % i, part_soup, {"n": 2500}) for i in range(4)]
@@ -265,6 +337,8 @@ def parts(tier, seed):
         ps += [("edits-%d" % i, part_edits, {"n": 2, "max_tokens": 30})
                for i in range(8)]
         ps += [("grammar-0", part_grammar, {"n": 1500})]
+        ps += [("atheris-%d" % i, part_atheris,
+                {"runs": 15000, "use_seed_corpus": i == 0}) for i in range(2)]
     else:
         ps = [("soup-%d" % i, part_soup, {"n": 30000}) for i in range(4)]
         ps += [("noise-%d" % i, part_noise, {"n": 30000}) for i in range(3)]
@@ -272,4 +346,7 @@ def parts(tier, seed):
                for i in range(16)]
         ps += [("grammar-%d" % i, part_grammar, {"n": 15000})
                for i in range(2)]
+        ps += [("atheris-%d" % i, part_atheris,
+                {"runs": 600000, "use_seed_corpus": i % 2 == 0})
+               for i in range(8)]
     return ps
